@@ -1,13 +1,17 @@
 """C18 - repozo recover reproduces the backed-up data file byte for byte; verify detects damage.
 
 1. TLC checks the design (ZRepozo with both deviation constants cleared) for all 16 option combinations:
-   RecoverExact, VerifyDetects, BackupOnlyCompleteTxns.
-2. With a deviation constant set to the behaviour of the code TLC exhibits the violation (F14: quick mode
-   trusting the md5 of an empty range; F18: chain taken from the directory listing alone); each counterexample
-   is replayed on the real code - that decides which setting matches the tree under test.
-3. TLC dumps the whole state graph of the model of the code as it is; every transition is replayed on a real
-   FileStorage + the real repozo functions, every state's recoveries (all dates) and verifications (full,
-   quick) are real calls compared with what TLC printed for that state, and with what the property demands.
+   RecoverExact, VerifyDetects, BackupOnlyCompleteTxns (+ IncrWithinFile, RepoShape, ObsDerived).
+2. With a deviation constant set to the behaviour of the code TLC exhibits the violation
+   (QuickTrustsEmptyRange: F14, quick mode trusting the md5 of an empty range; ChainByListing: F18, the chain
+   taken from the directory listing alone).  Each counterexample is replayed on the real code to its end: if
+   the code shows the violation the constant stays set for step 3 (and the violation is reported with its
+   structural signature), if the property holds on it the repaired behaviour is the model of this tree.
+3. TLC dumps the whole state graph of that model; every transition is replayed on a real FileStorage + the
+   real repozo functions (zv/drivers/repozo_graph.py: depth-first with checkpoints), every state's recoveries
+   (all run dates) and verifications (full, quick) are real calls compared with what TLC printed for that
+   state (conformance) and with what the property demands (`want`, `must`), every Damage transition is applied,
+   observed and undone.
 """
 import hashlib
 import os
@@ -35,7 +39,7 @@ ASSUME = ['TLC results are exhaustive only within the stated constants (chunks, 
 def consts(opts, chunks, ops, backups, empty_incr, by_listing):
     return {'MaxChunks': chunks, 'MaxOps': ops, 'MaxBackups': backups,
             'Opts': '{' + ', '.join(str(o) for o in sorted(opts)) + '}',
-            'WriteEmptyIncr': 'TRUE' if empty_incr else 'FALSE', 'ChainByListing': 'TRUE' if by_listing else 'FALSE'}
+            'QuickTrustsEmptyRange': 'TRUE' if empty_incr else 'FALSE', 'ChainByListing': 'TRUE' if by_listing else 'FALSE'}
 
 
 def cfg(ctx, name, c, invariants=(), next_='Next'):
@@ -88,12 +92,12 @@ def exhibits(r, clause):
     return any(v['kind'] == 'property' and v['sig'].get('clause') == clause for v in r['violations'])
 
 
-def graph_replay(ctx, name, c, cov, keep=None, next_='Next'):
+def graph_replay(ctx, name, c, cov, keep=None, next_='Next', primary=True):
     wd = os.path.join(ctx.scratch, 'graph-' + name)
     os.makedirs(wd, exist_ok=True)
     dot = os.path.join(wd, 'graph.dot')
     r = tlc.run(SPEC, cfg(ctx, 'graph-' + name, c, invariants=['BackupOnlyCompleteTxns', 'IncrWithinFile', 'RepoShape', 'ObsDerived'], next_=next_),
-                workdir=wd, dump_dot=dot, timeout=1500)
+                workdir=wd, dump_dot=dot, timeout=1500, extra=('-fp', '18'))
     if not r.ok:
         raise tlc.TLCError('graph %s: %s\n%s' % (name, r.violation, r.output[-2000:]))
     ctx.add_tlc('graph-' + name, r)
@@ -101,12 +105,12 @@ def graph_replay(ctx, name, c, cov, keep=None, next_='Next'):
     os.remove(dot)
     if len(g.raw) != r.distinct:
         raise RuntimeError('dumped graph has %d states, TLC reported %d' % (len(g.raw), r.distinct))
-    pl = rg.plan(g, ctx.seed, keep=keep)
+    pl = rg.plan(g, ctx.seed, keep=keep, min_jobs=64 if keep is None else 400)
     rg.CURRENT, rg.CURRENT_PLAN = g, pl
     jobs = [(i, os.path.join(ctx.scratch, 'rp-%s-%d' % (name, i)), job_opts(ctx, i)) for i in range(len(pl.jobs))]
     results = par.pmap(rg.replay_tree, jobs, chunksize=1)
     rg.CURRENT = rg.CURRENT_PLAN = None
-    st = dict(pl.stats, opts=c['Opts'], step_transitions_replayed=0, damage_transitions_replayed=0, states_observed=0)
+    st = dict(pl.stats, opts=c['Opts'], primary=primary, step_transitions_replayed=0, damage_transitions_replayed=0, states_observed=0)
     for r in results:
         st['step_transitions_replayed'] += r['cover']['step']
         st['damage_transitions_replayed'] += r['cover']['damage']
@@ -172,11 +176,11 @@ def run(ctx):
     # 2. the code as it is: TLC exhibits the violations; the counterexamples decide which setting matches the tree
     small = (0, 2, 9)
     r14 = ctx.model_check(SPEC, cfg(ctx, 'f14', consts(small, 3, 7, 3, True, False), ['RecoverExact'], next_='NextNoDamage'),
-                          name='as-code-empty-incremental', expect_violation='RecoverExact', timeout=600)
+                          name='as-code-empty-incremental', expect_violation='RecoverExact', timeout=600, workers=1, extra=('-fp', '18'))
     r18v = ctx.model_check(SPEC, cfg(ctx, 'f18v', consts(small, 3, 7, 3, False, True), ['VerifyDetects'], next_='NextMissingNoTail'),
-                           name='as-code-chain-by-listing-verify', expect_violation='VerifyDetects', timeout=600)
+                           name='as-code-chain-by-listing-verify', expect_violation='VerifyDetects', timeout=600, workers=1, extra=('-fp', '18'))
     r18r = ctx.model_check(SPEC, cfg(ctx, 'f18r', consts(small, 3, 7, 3, False, True), ['RecoverExact'], next_='NextMissingNoTail'),
-                           name='as-code-chain-by-listing-recover', expect_violation='RecoverExact', timeout=600)
+                           name='as-code-chain-by-listing-recover', expect_violation='RecoverExact', timeout=600, workers=1, extra=('-fp', '18'))
     cx = {}
     for i, (name, r, clause) in enumerate((('empty-incremental', r14, 'recover'), ('listing-verify', r18v, 'verify'),
                                            ('listing-recover', r18r, 'recover'))):
@@ -190,7 +194,7 @@ def run(ctx):
         judge(ctx, [res], 'TLC counterexample ' + name, cov)
     empty_incr = cx['empty-incremental']
     by_listing = cx['listing-verify'] or cx['listing-recover']
-    cov['constants_matching_tree'] = {'WriteEmptyIncr': empty_incr, 'ChainByListing': by_listing}
+    cov['constants_matching_tree'] = {'QuickTrustsEmptyRange': empty_incr, 'ChainByListing': by_listing}
     # 3. conformance + property on the whole graph of the model of the code as it is
     if q:
         opts = option_sets(ctx.seed)
@@ -199,14 +203,14 @@ def run(ctx):
         graph_replay(ctx, 'all-options', consts(ALL_OPTS, 3, 7, 3, empty_incr, by_listing), cov)
         for j in range(2):
             opts = option_sets(ctx.seed + 1 + j)
-            graph_replay(ctx, 'deep-%d' % j, consts(opts, 4, 8, 4, empty_incr, by_listing), cov, keep=0.25)
+            graph_replay(ctx, 'deep-%d' % j, consts(opts, 4, 8, 4, empty_incr, by_listing), cov, keep=0.25, primary=False)
     need = ['Commit', 'BeginTail', 'AbortTail', 'Pack', 'Backup', 'Damage:missing', 'Damage:trunc', 'Damage:alt']
     lacking = [a for a in need if not cov['actions'].get(a)]
     decs = {d.split('/')[0] for d in cov['decisions']}
     if lacking or not {'full', 'incr', 'nochange'} <= decs:
         raise RuntimeError('vacuous replay: actions never taken %r, decisions seen %r' % (lacking, sorted(decs)))
     distinct, nontrivial = len(cov.pop('_distinct')), len(cov.pop('_nontrivial'))
-    exhaustive = all(not g['sampled'] for g in cov['graphs'].values())
+    exhaustive = all(not g['sampled'] for g in cov['graphs'].values() if g['primary'])
     return ctx.finish({
         'evaluations': cov['behaviours'],
         'distinct_nontrivial': nontrivial,
@@ -217,7 +221,10 @@ def run(ctx):
                 'and a recovery as of now is made; on the first visit of every state recovery as of every run date and full + '
                 'quick verification are real calls compared with TLC\'s obs table, and every Damage transition of the state is '
                 'applied, observed the same way and undone; distinct = distinct action sequence; non-trivial = at least two '
-                'backup runs, or a backup run and a damaged file',
+                'backup runs, or a backup run and a damaged file; exhaustive refers to the primary graph (3 chunks, 3 backup '
+                'runs, %s operations, %s): all of its transitions and states are replayed; the thorough tier adds seeded '
+                'samples (a quarter of the subtrees) of two deeper graphs (4 chunks, 4 runs, 8 operations)' % (
+                    (6, 'three seeded option combinations') if q else (7, 'all 16 option combinations')),
         'traces_validated_against_impl': cov['behaviours'],
         'replayed_steps': cov['steps'],
         'observed_states': cov['observed_states'],
